@@ -20,7 +20,13 @@ type c04Fault struct {
 	kind string // "none" | "rdcut" | "wrfail"
 	at   int
 	err  bool // rdcut: error instead of EOF
+	mini bool // one goroutine, a fixed sequence of single-packet operations: the reply stream is the same in every run,
+	// so that EVERY byte position of it (length prefix, type byte, id, body of every reply kind) can be cut
 }
+
+// case numbering for crash attribution (the driver restarts the sweep behind a case that killed the process)
+var c04Case int
+var c04Skip = envInt("VERIF_SKIP", 0)
 
 type c04Op struct {
 	g, n     int
@@ -33,7 +39,12 @@ type c04Op struct {
 // c04Session runs the fixed concurrent session under one fault. Returns the number of bytes the peer wrote and
 // the number of client writes (for enumerating faults).
 func c04Session(t testing.TB, tr *tracer, f c04Fault, variant int) (int, int) {
-	tr.reset(kv{"kind": "connloss", "fault": f.kind, "at": f.at, "err": f.err, "variant": variant})
+	c04Case++
+	if f.kind != "none" && c04Case <= c04Skip {
+		return 0, 0
+	}
+	tr.reset(kv{"kind": "connloss", "fault": f.kind, "at": f.at, "err": f.err, "variant": variant, "mini": f.mini, "case": c04Case})
+	tr.flush()                    // a crash of this process is attributed to this case
 	base := len(sftpGoroutines()) // goroutines leaked by earlier (already reported) sessions
 	pr := newPeer(t, tr)
 	pr.fileSize = 650
@@ -90,6 +101,12 @@ func c04Session(t testing.TB, tr *tracer, f c04Fault, variant int) (int, int) {
 	}
 	rc := make(chan res, 1)
 	go func() {
+		defer func() {
+			if r := recover(); r != nil {
+				tr.emit("Panic", kv{"where": "NewClientPipe", "msg": fmt.Sprint(r)})
+				rc <- res{nil, fmt.Errorf("panic: %v", r)}
+			}
+		}()
 		cl, err := pr.client(opts...)
 		rc <- res{cl, err}
 	}()
@@ -117,6 +134,11 @@ func c04Session(t testing.TB, tr *tracer, f c04Fault, variant int) (int, int) {
 		wg.Add(1)
 		go func() {
 			defer wg.Done()
+			defer func() {
+				if r := recover(); r != nil {
+					tr.emit("Panic", kv{"where": fmt.Sprintf("g%d", g), "msg": fmt.Sprint(r)})
+				}
+			}()
 			n := 0
 			body(g, &n)
 		}()
@@ -142,7 +164,33 @@ func c04Session(t testing.TB, tr *tracer, f c04Fault, variant int) (int, int) {
 			done(o, err)
 		}
 	}
+	if f.mini {
+		worker(1, func(g int, n *int) {
+			for k := 0; k < 4; k++ {
+				single(g, n, k, "m")
+			}
+			o := newOp(g, n, "Open", "/c04/file", 0)
+			fl, err := cl.Open("/c04/file")
+			done(o, err)
+			if err == nil {
+				o = newOp(g, n, "ReadAt", "40", 0)
+				_, err = fl.ReadAt(make([]byte, 40), 10)
+				done(o, err)
+				o = newOp(g, n, "Close", "", 0)
+				err = fl.Close()
+				done(o, err)
+			}
+			o = newOp(g, n, "ReadDir", "/c04/dir", 0)
+			_, err = cl.ReadDir("/c04/dir")
+			done(o, err)
+		})
+	}
 	// g1: single calls
+	workerFull := worker
+	if f.mini {
+		workerFull = func(int, func(int, *int)) {}
+	}
+	worker = workerFull
 	worker(1, func(g int, n *int) {
 		for k := 0; k < 6; k++ {
 			single(g, n, k, "s")
@@ -311,6 +359,17 @@ func TestVerif_ConnLoss(t *testing.T) {
 		if c04Failures >= 3 {
 			tr.emit("Note", kv{"aborted": "three sessions did not return; the rest of the sweep is skipped"})
 			return
+		}
+		if v < 2 {
+			// the deterministic mini session: every byte position of its reply stream, ending with EOF and with an error
+			ML, _ := c04Session(t, tr, c04Fault{kind: "none", mini: true}, v)
+			for k := 0; k <= ML+1 && c04Failures < 3; k++ {
+				if !vThorough() && v == 1 && k%3 != int(vSeed())%3 {
+					continue
+				}
+				c04Session(t, tr, c04Fault{kind: "rdcut", at: k, err: false, mini: true}, v)
+				c04Session(t, tr, c04Fault{kind: "rdcut", at: k, err: true, mini: true}, v)
+			}
 		}
 		L, W := c04Session(t, tr, c04Fault{kind: "none"}, v)
 		stride := 12
